@@ -505,6 +505,7 @@ class C05(ExtrusionMonitor):
                (2, "relative-extrusion", mk(rel=True, g90e=True, p_inside=0.5, g92e_retracted=True)),
                (1, "relative-extrusion-firmware", mk(rel=True, g90e=True, fw=True, p_inside=0.5)),
                (1.5, "relative-extrusion-inch", mk(rel=True, inch=True, g90e=True, p_inside=0.5, g92e_retracted=True)),
+               (2, "relative-extrusion-windows", mk(rel=True, g90e=True, p_inside=0.55, p_relswitch=0.1, g92e=False)),
                (1, "e-only-arcs", mk(arcs=True)), (2, "spelled", mk(spell=True, rel=True, p_inside=0.5)),
                (1, "spelled-firmware", mk(spell=True, fw=True, p_inside=0.5)),
                (2, "e-word-on-every-line", mk(p_esame=0.7, p_inside=0.5, g92e_retracted=True)),
